@@ -296,7 +296,9 @@ class EncodeRows(Filter[Iterable[Union[Dense,Sparse]],Iterable[Union[Dense,Spars
         if isinstance(first,Dense):
             if isinstance(enc,abc.Mapping):
                 if hasattr(first, 'headers'):
-                    enc = [ enc.get(h, enc.get(i, lambda x:x)) for i,h in enumerate(first.headers) ]
+                    hdrs = first.headers
+                    if isinstance(hdrs,abc.Mapping): hdrs = sorted(hdrs,key=hdrs.__getitem__) #the map isn't necessarily in positional order
+                    enc = [ enc.get(h, enc.get(i, lambda x:x)) for i,h in enumerate(hdrs) ]
                 else:
                     enc = [ enc.get(i, lambda x:x)             for i   in range(len(first))        ]
             return ( EncodeDense(row, enc) for row in rows )
@@ -395,8 +397,10 @@ class DropRows(Filter[Iterable[Union[Dense,Sparse]], Iterable[Union[Dense,Sparse
     def make_drop_row_args(first, drop_cols) -> Tuple:
         if isinstance(first,Dense):
             try:
-                selects = [ not any(i in drop_cols for i in I) for I in enumerate(first.headers) ]
-                headers = first.headers.items()
+                hdrs    = first.headers
+                if isinstance(hdrs,abc.Mapping): hdrs = sorted(hdrs,key=hdrs.__getitem__) #the map isn't necessarily in positional order
+                selects = [ not any(i in drop_cols for i in I) for I in enumerate(hdrs) ]
+                headers = [ (h,i) for h,i in first.headers.items() if selects[i] ]
                 indexes = list(compress(range(len(first)), selects))
             except:
                 selects = [ i not in drop_cols for i in range(len(first)) ]
